@@ -37,6 +37,8 @@ from gen_kind import Unsupported, die, write_if_changed  # noqa: E402
 REPO = os.environ.get("UP_REPO", "/repo")
 VERIF = os.path.dirname(os.path.dirname(os.path.abspath(__file__)))
 OUT = os.path.join(VERIF, "coq", "theories", "Gen", "Gen_Engines.v")
+# compiler classes whose kinds are not static by design: CompilersPipeline.supported_kind/supports raise UPUsageError
+SKIPPED_COMPILER_CLASSES = {"CompilersPipeline": "its supported kind depends on the compilers it is given"}
 MODEL_OPMODES = ["ONESHOT_PLANNER", "ANYTIME_PLANNER", "PLAN_VALIDATOR", "PORTFOLIO_SELECTOR", "COMPILER",
                  "SEQUENTIAL_SIMULATOR", "REPLANNER", "PLAN_REPAIRER", "ACTION_SELECTOR"]
 
@@ -478,7 +480,31 @@ def main_load():
         d["name"] = n
         d["module"] = m
         engines.append(d)
-    return {"kt": kt, "engines": engines, "external": [n for n, (m, c) in default_engines.items() if m.split(".")[0] != "unified_planning"],
+    # compilers defined in unified_planning/engines/compilers/ that DEFAULT_ENGINES does not register (reachable only by
+    # instantiating the class): translated too, for C09; named by their class
+    extra = []
+    registered_classes = set(c for _, _, c in wanted)
+    for path in sorted(glob.glob(os.path.join(REPO, "unified_planning/engines/compilers/*.py"))):
+        rel = os.path.relpath(path, REPO)
+        tree = ast.parse(open(path).read())
+        fimp = any(isinstance(s, ast.ImportFrom) and s.module == "unified_planning.model.problem_kind"
+                   and any(a.name == "FEATURES" and a.asname is None for a in s.names) for s in tree.body)
+        for s in tree.body:
+            if not isinstance(s, ast.ClassDef) or s.name in registered_classes or s.name in info:
+                continue
+            bases = [ast.unparse(b).split(".")[-1] for b in s.bases]
+            if not ("CompilerMixin" in bases or any(b in classes for b in bases)):
+                continue
+            if s.name in SKIPPED_COMPILER_CLASSES:
+                continue
+            if s.name in classes and classes[s.name][1] != rel:
+                raise Unsupported("two compiler classes named %s" % s.name)
+            classes[s.name] = (s, rel, fimp)
+            d = dict(resolve(s.name))
+            d["name"] = s.name
+            d["module"] = rel[:-3].replace("/", ".")
+            extra.append(d)
+    return {"kt": kt, "engines": engines, "extra": extra, "external": [n for n, (m, c) in default_engines.items() if m.split(".")[0] != "unified_planning"],
             "meta": list(default_meta.keys()), "prefs": prefs, "meta_prefs": meta_prefs, "enums": enums, "opmodes": opmodes}
 
 
@@ -545,6 +571,22 @@ def emit(t):
         w("     e_anytime := [%s];" % "; ".join("ag_" + x for x in e["anytime"]))
         w("     e_resulting :=\n      %s |}." % g_prog(e["resulting"] or []))
         w("")
+    for e in t["extra"]:
+        feats, ver = e["supported"]
+        w("(* not registered in DEFAULT_ENGINES: %s.%s *)" % (e["module"], e["class"]))
+        w("Definition %s : engine :=" % ident(e["name"]))
+        w('  {| e_class := "%s";' % e["class"])
+        w("     e_modes := [%s];" % "; ".join(e["modes"]))
+        w("     e_supported := {| k_feats := mask_of %s;\n                       k_ver := %s |};" % (
+            g_feats(feats), "None" if ver is None else "Some %d%%N" % ver))
+        w("     e_compilations := [%s];" % "; ".join("ck_" + x for x in e["compilations"]))
+        w("     e_plans := []; e_optimality := []; e_anytime := [];")
+        w("     e_resulting :=\n      %s |}." % g_prog(e["resulting"] or []))
+        w("")
+    w("(* compilers defined under unified_planning/engines/compilers/ that DEFAULT_ENGINES does not register (keyed by class name) *)")
+    w("Definition extra_compilers : registry :=\n  [ %s ]." % "\n  ; ".join('("%s", %s)' % (e["name"], ident(e["name"])) for e in t["extra"]))
+    w("Definition skipped_compiler_classes : list string := [%s]." % "; ".join('"%s"' % n for n in sorted(SKIPPED_COMPILER_CLASSES)))
+    w("")
     w("(* DEFAULT_ENGINES whose module is part of the repository (Factory._engines when no external planner is installed,")
     w("   minus the ones whose import fails) *)")
     w("Definition builtin_engines : registry :=\n  [ %s ]." % "\n  ; ".join('("%s", %s)' % (e["name"], ident(e["name"])) for e in t["engines"]))
@@ -566,8 +608,8 @@ def main():
         sys.stderr.write("gen_engines: FAIL-CLOSED: %s\n" % e)
         sys.exit(2)
     changed = write_if_changed(OUT, text)
-    print("gen_engines: %d built-in engines (%d compilers), %d external, %d meta -> %s (%s)" % (
-        len(t["engines"]), sum(1 for e in t["engines"] if "COMPILER" in e["modes"]), len(t["external"]), len(t["meta"]), OUT,
+    print("gen_engines: %d built-in engines (%d compilers), %d unregistered compilers, %d external, %d meta -> %s (%s)" % (
+        len(t["engines"]), sum(1 for e in t["engines"] if "COMPILER" in e["modes"]), len(t["extra"]), len(t["external"]), len(t["meta"]), OUT,
         "rewritten" if changed else "unchanged"))
 
 
